@@ -1,6 +1,6 @@
 #!/bin/bash
 # sweep.sh [tier] [seed...] : runs every registered check once per seed and prints one line each.
-cd /verif
+cd "$(dirname "$(readlink -f "$0")")/.."
 tier=${1:-quick}; shift
 seeds=${@:-1}
 for seed in $seeds; do
